@@ -34,8 +34,18 @@ func main() {
 }
 
 // opBound is the time every single call on the implementation gets before it is
-// reported as hanging.  The expected latency is far below a millisecond.
+// reported as hanging.  The expected latency is far below a millisecond; there is no
+// legitimate time-out in the multiplexer.
 const opBound = 20 * time.Second
+
+// afterHangBound replaces opBound for the rest of a scripted scenario once one of its calls has
+// hung: the scenario is a failing input already, the remaining calls only complete the record.
+const afterHangBound = 1 * time.Second
+
+// maxHungScenarios: a child that has seen this many scenarios with a hanging call skips the
+// rest of its batch (an implementation that hangs everywhere would otherwise cost one bound
+// per call); skipped scenarios are reported as such and never count as passed.
+const maxHungScenarios = 2
 
 // scnBound is the watchdog of one whole scenario inside the child.
 const scnBound = 180 * time.Second
@@ -49,6 +59,7 @@ type obsLine struct {
 	I     int        `json:"i"`
 	Begin bool       `json:"begin,omitempty"`
 	Hang  bool       `json:"hang,omitempty"`
+	Skip  bool       `json:"skip,omitempty"`
 	X     *xferObs   `json:"x,omitempty"`
 	S     *scriptObs `json:"s,omitempty"`
 }
@@ -58,6 +69,7 @@ type scnResult struct {
 	X     *xferObs
 	S     *scriptObs
 	Crash string // non-empty: the child died or hung while running this scenario
+	Skip  bool   // not executed: the child had met maxHungScenarios hanging scenarios before
 }
 
 // maxPayload reads maxPayloadSize from the sources the harness was built against.
@@ -93,7 +105,12 @@ func driveExec(c *hx.Ctx) error {
 		out.Write(append(js, '\n'))
 	}
 	maxp := maxPayload(c.Repo)
+	hung := 0
 	for i := start; i < len(scns); i++ {
+		if hung >= maxHungScenarios {
+			emit(obsLine{I: i, Skip: true})
+			continue
+		}
 		emit(obsLine{I: i, Begin: true})
 		done := make(chan obsLine, 1)
 		go func(i int) {
@@ -107,6 +124,9 @@ func driveExec(c *hx.Ctx) error {
 		}(i)
 		select {
 		case l := <-done:
+			if (l.S != nil && l.S.Hung) || (l.X != nil && l.X.Hung) {
+				hung++
+			}
 			emit(l)
 		case <-time.After(scnBound):
 			emit(obsLine{I: i, Hang: true})
@@ -212,6 +232,9 @@ func runChunk(c *hx.Ctx, tag string, scns []scenario, res []scnResult) {
 					begun = l.I
 				case l.Hang:
 					// handled below as a crash of scenario l.I
+				case l.Skip:
+					res[l.I] = scnResult{Skip: true}
+					last = l.I
 				default:
 					res[l.I] = scnResult{X: l.X, S: l.S}
 					last = l.I
